@@ -140,3 +140,79 @@ Proof.
   { intros q _ Hq d' Hl. apply Hpub. rewrite Hl. destruct q; exact Hq. }
   exact (private_extension_unique P priv T1 T2 Hpr Hag Q1 Q2 (mkpred p (List.length d)) Hp d eq_refl).
 Qed.
+
+(* ---------- existence of the private extension ---------- *)
+Section Existence.
+Variable P : program.
+Variable priv : list pred.
+Variable N : pint.
+
+(* stage n: the non-private predicates as in N, the private ones recomputed from stage n-1 *)
+Fixpoint ext (n : nat) : pint :=
+  match n with
+  | O => fun p d => N p d /\ ~ In (mkpred p (List.length d)) priv
+  | S k => fun p d =>
+      if in_dec pred_dec (mkpred p (List.length d)) priv
+      then exists r a sg, In r P /\ rhead r = HBasic a /\ atom_pred a = mkpred p (List.length d) /\
+                          tuple_vals sg (aterms a) d /\ body_sat (ext k) (ext k) sg (rbody r)
+      else N p d
+  end.
+
+Lemma ext_pub n p d : ~ In (mkpred p (List.length d)) priv -> (ext n p d <-> N p d).
+Proof.
+  intros H. destruct n as [|k]; cbn; [tauto|].
+  destruct (in_dec pred_dec (mkpred p (List.length d)) priv); [contradiction|tauto].
+Qed.
+Lemma ext_priv k p d : In p priv -> List.length d = parity p ->
+  (ext (S k) (psym p) d <->
+   exists r a sg, In r P /\ rhead r = HBasic a /\ atom_pred a = p /\
+                  tuple_vals sg (aterms a) d /\ body_sat (ext k) (ext k) sg (rbody r)).
+Proof.
+  intros Hp Hl. cbn [ext]. rewrite Hl. replace (mkpred (psym p) (parity p)) with p by (destruct p; reflexivity).
+  destruct (in_dec pred_dec p priv); [tauto|contradiction].
+Qed.
+
+Hypothesis Hpr : has_private_recursion P priv = false.
+
+Lemma ext_stabilises : forall b p, In p priv ->
+  forall rank, (forall h q, priv_dep P priv h q -> rank q < rank h) -> rank p < b ->
+  forall n m, rank p < n -> rank p < m -> agree_on (ext n) (ext m) p.
+Proof.
+  induction b as [|b IH]; intros p Hp rank Hrank Hb n m Hn Hm; [lia|].
+  destruct n as [|n]; [lia|]. destruct m as [|m]; [lia|].
+  intros d Hl. rewrite (ext_priv n p d Hp Hl), (ext_priv m p d Hp Hl).
+  assert (Hbody : forall r a sg, In r P -> rhead r = HBasic a -> atom_pred a = p ->
+                   (body_sat (ext n) (ext n) sg (rbody r) <-> body_sat (ext m) (ext m) sg (rbody r))).
+  { intros r a sg Hr Hh Ha. apply body_sat_agree. intros l Hlit.
+    destruct (in_dec pred_dec (atom_pred (latom l)) priv) as [Hq|Hq].
+    - assert (Hd : priv_dep P priv p (atom_pred (latom l))).
+      { split; [exact Hp|]. split; [exact Hq|]. exists r, l. repeat split; auto. rewrite Hh. cbn. congruence. }
+      apply Hrank in Hd. apply (IH _ Hq rank Hrank); lia.
+    - intros d' Hl'. rewrite !ext_pub; try tauto; rewrite Hl'; destruct (atom_pred (latom l)); exact Hq. }
+  split; intros [r [a [sg [Hr [Hh [Ha [Hv Hbs]]]]]]]; exists r, a, sg; repeat split; auto;
+    apply (Hbody r a sg Hr Hh Ha); exact Hbs.
+Qed.
+
+Theorem private_extension_exists :
+  exists M : pint,
+    (forall p d, ~ In (mkpred p (List.length d)) priv -> (M p d <-> N p d)) /\
+    priv_supported M P priv.
+Proof.
+  destruct (priv_rank P priv Hpr) as [_ [rank Hrank]].
+  set (K := S (list_max (map rank priv))).
+  assert (HK : forall p, In p priv -> rank p < K).
+  { intros p Hp. unfold K.
+    assert (F : Forall (fun k => k <= list_max (map rank priv)) (map rank priv)) by (apply list_max_le; lia).
+    rewrite Forall_forall in F. specialize (F (rank p) (in_map rank priv p Hp)). lia. }
+  exists (ext (S K)). split; [intros p d Hn; apply ext_pub; exact Hn|].
+  intros p Hp d Hl. rewrite (ext_priv K p d Hp Hl).
+  assert (Hbody : forall r a sg, In r P -> rhead r = HBasic a -> atom_pred a = p ->
+                   (body_sat (ext K) (ext K) sg (rbody r) <-> body_sat (ext (S K)) (ext (S K)) sg (rbody r))).
+  { intros r a sg Hr Hh Ha. apply body_sat_agree. intros l Hlit.
+    destruct (in_dec pred_dec (atom_pred (latom l)) priv) as [Hq|Hq].
+    - pose proof (HK _ Hq). apply (ext_stabilises K _ Hq rank Hrank); lia.
+    - intros d' Hl'. rewrite !ext_pub; try tauto; rewrite Hl'; destruct (atom_pred (latom l)); exact Hq. }
+  split; intros [r [a [sg [Hr [Hh [Ha [Hv Hbs]]]]]]]; exists r, a, sg; repeat split; auto;
+    apply (Hbody r a sg Hr Hh Ha); exact Hbs.
+Qed.
+End Existence.
